@@ -5,4 +5,5 @@ import Solvor.Flow.EKArcs
 import Solvor.Flow.SSPLemmas
 import Solvor.Flow.AssignLemmas
 import Solvor.Flow.AssignBack
+import Solvor.Flow.PairLemmas
 /-! Flow: helper lemmas (collected from the files of this directory). -/
